@@ -62,6 +62,8 @@ def correspondence(rep, ctx):
         ({"H-3": fractions.Fraction(3), "C-14": fractions.Fraction(4, 2)}, "num"), ({"C-14": 2.0, "H-3": 3.0}, "num"),
         ({"H-3": 3.0, "C-14": 2.0000000000000004}, "num"), ({"H-3": 3.0}, "num"), ({"H-3": 3.0, "C-14": 2.0, "He-3": 0.0}, "num"),
         ({"H-3": 0.5}, "mol"), ({"H-3": 500.0}, "mmol"), ({"H-3": 1.0}, "Bq"),
+        # amounts that differ by less than double resolution: equal as doubles, different as exact (HP) amounts
+        ({"H-3": 10**20, "C-14": 2}, "num"), ({"H-3": 10**20 + 1, "C-14": 2}, "num"),
     ]
     for ds, dsid in datasets[:4]:
         for contents, unit in specs:
